@@ -32,7 +32,7 @@ def cases(tier, seed):
         E = tsspace.arg_ts(a).num_edges
         pats = tsspace.mutation_patterns(E, "Ms" if tier == "quick" else "Mp")
         for pn, pat in pats:
-            for sc in ("1", "1e4"):
+            for sc in (("1", "1e4") if "renumber" not in a or tier != "quick" else ("1",)):
                 out.append({"arg": a, "mut": pat, "scale": sc, "above_root": int(pn == "mod3")})
     return {"cases": out, "states": sp.states, "transitions": sp.transitions, "bound": f"{sp.describe()} (2 numberings) x mutation menu x input time scale {{1,1e4}} x intervals {{1,2,100}} x iterations {{1,10}} x segsites", "exhaustive": True}
 
